@@ -37,10 +37,10 @@ Definition gov_guard_eqb (a b : gov_guard) : bool :=
 (** (module, endpoint, documented guard) of the endpoints that carry an Authority field but are
     documented as usable by someone other than the governance authority. *)
 Definition documented_not_gov_only : list (string * string * gov_guard) := [
-  ("marker", "UpdateSendDenyList", GvAuthorityOr "marker.ValidateHasAccess(msg.Authority, types.Access_Transfer)");
-  ("name", "ModifyName", GvAuthorityOr "existing.Address");
+  ("marker", "UpdateSendDenyList", GvAuthorityOr "k.GetMarkerByDenom(ctx, msg.Denom).ValidateHasAccess(msg.Authority, types.Access_Transfer)");
+  ("name", "ModifyName", GvAuthorityOr "k.Keeper.GetRecordByName(ctx, msg.Record.Name).Address");
   ("oracle", "SendQueryOracle", GvNone "QueryOracle");
-  ("trigger", "DestroyTrigger", GvOther "trigger.GetOwner()")
+  ("trigger", "DestroyTrigger", GvOther "k.GetTrigger(ctx, msg.Id).GetOwner()")
 ].
 
 Definition exception_of (r : gov_row) : option gov_guard :=
@@ -58,16 +58,13 @@ Definition is_gov_only_guard (g : gov_guard) : bool :=
 Definition no_precalls (r : gov_row) : bool :=
   match gv_precalls r with [] => true | _ => false end.
 
-(** Accepted bodies (normalised source text, receiver renamed to k). *)
+(** Accepted bodies (alpha-normalised by the translator: receiver k, parameters #i, error values
+    $error). *)
 Definition accepted_authority_bodies : list (string * list string) := [
   ("GetAuthority", ["return k.authority"]);
-  ("IsAuthority", ["return strings.EqualFold(k.authority, addr)"]);
-  ("ValidateAuthority",
-     ["if !k.IsAuthority(addr) { return govtypes.ErrInvalidSigner.Wrapf(""expected %q got %q"", k.GetAuthority(), addr) }";
-      "return nil"]);
-  ("ValidateAuthority",
-     ["if k.authority != addr { return govtypes.ErrInvalidSigner.Wrapf(""expected %q got %q"", k.authority, addr) }";
-      "return nil"])
+  ("IsAuthority", ["return strings.EqualFold(k.authority, #0)"]);
+  ("ValidateAuthority", ["if !k.IsAuthority(#0) { return $error }"; "return nil"]);
+  ("ValidateAuthority", ["if k.authority != #0 { return $error }"; "return nil"])
 ].
 
 Fixpoint strs_eqb (a b : list string) : bool :=
